@@ -34,6 +34,17 @@ def gen_cons(rng, with_times=True):
     return cs
 
 
+def add_side_effects(rng, ops, p=0.5):
+    """expectations of functions 0/1 may carry a side effect that calls function 2 or 3 (which never
+    have one themselves): a mock called from inside another mock's call"""
+    out = []
+    for o in ops:
+        if o[0] in "EA" and o[1] in (0, 1) and rng.random() < p:
+            o = (o[0], o[1], o[2] + [("s", rng.choice([2, 3]))])
+        out.append(o)
+    return out
+
+
 def gen_ops(rng, length, nf=NF, p_decl=0.55, modes=True):
     ops = []
     for _ in range(length):
@@ -64,7 +75,7 @@ def to_vm(ops):
         if o[0] in "EAN":
             line += 1
             cs = " ".join("p%d=%d" % (c[1], c[2]) if c[0] == "p" else "%s%d" % (c[0], c[1]) for c in o[2])
-            out.append("%s %d %d %s" % (o[0], o[1], line, cs))
+            out.append("%s %d %d %s" % (o[0], o[1], line, cs))          # ("s", g) prints as s<g>
         elif o[0] == "C":
             out.append("C %d %s" % (o[1], ",".join("p%d=%d" % a for a in o[2])))
         elif o[0] == "M":
@@ -74,15 +85,22 @@ def to_vm(ops):
     return ";".join(out)
 
 
-def to_sexp(ops):
+NESTED_ARGS = [(0, 1), (1, 1)]
+
+
+def to_sexp(ops, nested=None):
+    """the model knows no side effects: a call that runs a side effect calling g is followed by the
+    call of g as an operation of its own (nested[k] = the functions called from inside op k)"""
     out, line = [], 0
-    for o in ops:
+    for k, o in enumerate(ops):
         if o[0] in "EAN":
             line += 1
-            cs = " ".join("(p %d %d)" % (c[1], c[2]) if c[0] == "p" else "(%s %d)" % (c[0], c[1]) for c in o[2])
+            cs = " ".join("(p %d %d)" % (c[1], c[2]) if c[0] == "p" else "(%s %d)" % (c[0], c[1]) for c in o[2] if c[0] != "s")
             out.append("(%s %d %d %s)" % (o[0], o[1], line, cs))
         elif o[0] == "C":
             out.append("(C %d %s)" % (o[1], " ".join("(%d %d)" % a for a in o[2])))
+            for g in (nested[k] if nested else []):
+                out.append("(C %d %s)" % (g, " ".join("(%d %d)" % a for a in NESTED_ARGS)))
         elif o[0] == "M":
             out.append("(M %s)" % o[1])
         else:
@@ -117,7 +135,7 @@ def run_vm(drv, cases, timeout=300):
 # per-function specification, as an independent oracle on the implementation's outputs
 # (the executable reading of Spec_Mocks.v: every function has its own FIFO)
 # ---------------------------------------------------------------------------------------
-def spec_run(ops, unlimited):
+def spec_run(ops, unlimited, nested_out=None):
     """Expected (results multiset per op, return value) from per-function FIFOs.
     pending entry: dict(line, kind 'times'/'always'/'never', left, cons, called, trig)"""
     pend = {}
@@ -125,8 +143,45 @@ def spec_run(ops, unlimited):
     succ = set()
     out = []
     line = 0
-    for o in ops:
+    def call(f, args, res, nest):
+        """one call of f served by f's own FIFO; returns its return value; nested calls appended"""
+        nonlocal mode
+        ret = 0
+        l = pend.get(f, [])
+        if not l:
+            if mode == "strict":
+                res.append((0, 0))
+            return ret
+        e = l[0]
+        if e["kind"] == "never":
+            e["trig"] += 1
+            res.append((e["line"], 0))
+            return ret
+        succ.add(f)
+        ret = next((c[1] for c in e["cons"] if c[0] == "r"), 0)
+        names = [a[0] for a in args]
+        unknown = next((c for c in e["cons"] if c[0] == "p" and c[1] not in names), None)
+        if unknown is not None:
+            res.append((e["line"], 0))
+        else:
+            for a in args:
+                for c in e["cons"]:
+                    if c[0] == "p" and c[1] == a[0]:
+                        res.append((e["line"], 1 if a[1] == c[2] else 0))
+            e["called"] += 1
+            for c in e["cons"]:
+                if c[0] == "s":
+                    nest.append(c[1])
+                    call(c[1], NESTED_ARGS, res, nest)
+        if e["kind"] == "times":
+            e["left"] -= 1
+            if e["left"] <= 0:
+                l.remove(e)
+        return ret
+
+    for k_op, o in enumerate(ops):
         res, ret = [], 0
+        nest = []
         if o[0] in "EAN":
             line += 1
             f = o[1]
@@ -151,33 +206,7 @@ def spec_run(ops, unlimited):
                 l.append({"line": line, "kind": kind, "left": left, "cons": o[2], "called": 0, "trig": 0,
                           "ntimes": len(times) if o[0] == "E" or True else 0})
         elif o[0] == "C":
-            f = o[1]
-            l = pend.get(f, [])
-            if not l:
-                if mode == "strict":
-                    res.append((0, 0))
-            else:
-                e = l[0]
-                if e["kind"] == "never":
-                    e["trig"] += 1
-                    res.append((e["line"], 0))
-                else:
-                    succ.add(f)
-                    ret = next((c[1] for c in e["cons"] if c[0] == "r"), 0)
-                    names = [a[0] for a in o[2]]
-                    unknown = next((c for c in e["cons"] if c[0] == "p" and c[1] not in names), None)
-                    if unknown is not None:
-                        res.append((e["line"], 0))
-                    else:
-                        for a in o[2]:
-                            for c in e["cons"]:
-                                if c[0] == "p" and c[1] == a[0]:
-                                    res.append((e["line"], 1 if a[1] == c[2] else 0))
-                        e["called"] += 1
-                    if e["kind"] == "times":
-                        e["left"] -= 1
-                        if e["left"] <= 0:
-                            l.pop(0)
+            ret = call(o[1], o[2], res, nest)
         elif o[0] == "M":
             mode = o[1]
         elif o[0] == "T":
@@ -198,6 +227,8 @@ def spec_run(ops, unlimited):
         elif o[0] == "X":
             pend, succ = {}, set()
         out.append((sorted(res), ret))
+        if nested_out is not None:
+            nested_out.append(nest)
     return out
 
 
@@ -248,6 +279,18 @@ def gen_all(chk, which):
     for i in range(n):
         length = chk.rng.choice([1, 2, 3, 5, 8, 13, 21, 40])
         cases.append(gen_ops(chk.rng, length, nf=chk.rng.choice([1, 2, NF]), modes=(which == "C07" or i % 3 == 0)))
+    # mocks called from inside another mock's call (with_side_effect): a share of the random histories, and
+    # the family "inner declared before outer, both expiring, a third expectation pending behind them"
+    for i in range(300 if chk.tier == "quick" else 20000):
+        length = chk.rng.choice([3, 5, 8, 13, 21])
+        cases.append(add_side_effects(chk.rng, gen_ops(chk.rng, length, nf=NF, p_decl=0.5, modes=False)))
+    call = lambda f: ("C", f, [(0, 1), (1, 1)])
+    for inner in (2, 3):
+        for outer in (0, 1):
+            third = 1 - outer
+            cases.append([("E", inner, [("r", 5)]), ("E", outer, [("r", 1), ("s", inner)]), ("E", third, [("r", 7)]), ("E", outer, [("r", 2)]),
+                          call(outer), call(third), call(outer), ("T",)])
+            cases.append([("E", inner, [("r", 5), ("t", 2)]), ("A", outer, [("s", inner)]), ("E", third, [("r", 7)]), call(outer), call(outer), call(outer), call(third), ("T",)])
     # store growth boundaries: 95..105 and 195..205 pending expectations, then consume from head/middle
     for base in ([99, 100, 101, 200] if chk.tier == "quick" else list(range(95, 106)) + list(range(195, 206)) + [300, 401]):
         ops = [("E", i % NF, [("r", i)]) for i in range(base)]
@@ -270,7 +313,12 @@ def run_all(chk, drv, cases, which):
         chk.violation("engine-crash", "the mock engine crashed (exit %s) on a sequence" % rc,
                       {"ops": to_vm(bad) if bad else None, "how": "echo '<ops>' | _work/bin-hooks/mockvm"})
         cases = cases[:len(lines)]
-    model = vlib.run_model("mocks", [to_sexp(c) for c in cases])
+    nests = []
+    for c in cases:
+        n = []
+        spec_run(c, unlimited, n)
+        nests.append(n)
+    model = [merge_nested(ml, n) for ml, n in zip(vlib.run_model("mocks", [to_sexp(c, n) for c, n in zip(cases, nests)]), nests)]
     for ops, il, ml in zip(cases, lines, model):
         chk.case(to_vm(ops), nontrivial=len(ops) > 2)
         chk.count("len:%s" % ("1-3" if len(ops) <= 3 else "4-10" if len(ops) <= 10 else "11-50" if len(ops) <= 50 else ">50"))
@@ -310,6 +358,26 @@ def run_all(chk, drv, cases, which):
                     chk.violation(sorted(cs)[0] if cs else "pass-iff-conforms", "test %s but calls %s the declarations" % (
                         "fails" if impl_fail else "passes", "conform to" if not spec_fail else "do not conform to"),
                         {"ops": to_vm(ops), "implementation": il, "how": "echo '<ops>' | _work/bin-hooks/mockvm"})
+
+
+def merge_nested(ml, nests):
+    """the model ran a nested call as an operation of its own: fold it back into the outer call
+    (results of both in order, the outer call's return value, the queue after both)"""
+    parts = [p for p in ml.split(";") if p != ""]
+    out, i = [], 0
+    for n in nests:
+        if i >= len(parts):
+            break
+        r, ret, q = parts[i].split("/")
+        i += 1
+        for _ in n:
+            if i >= len(parts):
+                break
+            r2, _ret2, q = parts[i].split("/")
+            r = r + r2
+            i += 1
+        out.append("%s/%s/%s" % (r, ret, q))
+    return ";".join(out) + ";"
 
 
 def check_C06(chk):
